@@ -632,6 +632,16 @@ func (m *refkv) canon() string {
 		m.reopened = false
 	}
 	fmt.Fprintf(&b, "shell=%v reopened=%v ghosts=%d", m.shell && !m.exists(), m.reopened, len(m.ghost))
+	if m.exists() {
+		var rk []string
+		for k := range m.removed {
+			if _, back := m.recs[k]; !back {
+				rk = append(rk, k)
+			}
+		}
+		sort.Strings(rk)
+		fmt.Fprintf(&b, " removed-in-this-instance=%v", rk)
+	}
 	return b.String()
 }
 
@@ -673,7 +683,7 @@ func TestC06(t *testing.T) {
 	r.Extra["alphabet_size"] = len(ops)
 	r.Extra["read_suite"] = len(reads)
 	r.Extra["depth"] = depth
-	r.Rule = fmt.Sprintf("breadth-first search over reference-model states (refkv: key -> {type, value, five metadata fields}), %d requests on keys a,b (Set with the four CreateIfNotExist/Overwrite combinations, three value types, a uint32 set and metadata; Delete; IncrementInt32 with every relational condition true/false and SetIfExist/SetIfNotExist metadata; IncrementInt8/Uint64/Float64; Uint32SlicePush/Delete/Size/IsValueExist; ShiftByKeys; Destroy), depth %d, on an in-memory swamp, a persistent one (write interval 1 s) and an immediate-write one; FlushToDisk (the write-interval flush) and CloseAndReopen are part of the alphabet for the persistent swamps; a model state is expanded once; each transition replays the shortest history on a fresh swamp of an in-process server and issues one more request; its response, then %d read requests (Get, IsKeyExist per key; GetAll; GetByKeys; Count; AreKeysExist; IsSwampExist) are compared with the model; the client thread must return (exact deadlock detection). Fields the documentation leaves open are marked unspecified in the model and not compared (listed in assumptions). Non-trivial = transitions whose request changes the model state", len(ops), depth, len(reads))
+	r.Rule = fmt.Sprintf("breadth-first search over reference-model states (refkv: key -> {type, value, five metadata fields}), %d requests on keys a,b (Set with the four CreateIfNotExist/Overwrite combinations, three value types, a uint32 set and metadata; Delete; IncrementInt32 with every relational condition true/false and SetIfExist/SetIfNotExist metadata; IncrementInt8/Uint64/Float64; Uint32SlicePush/Delete/Size/IsValueExist; ShiftByKeys; Destroy), depth %d, on an in-memory swamp, a persistent one (write interval 1 s), an immediate-write one, and an in-memory swamp that already holds record b; FlushToDisk (the write-interval flush) and CloseAndReopen are part of the alphabet for the persistent swamps; a model state is expanded once; each transition replays the shortest history on a fresh swamp of an in-process server and issues one more request; its response, then %d read requests (Get, IsKeyExist per key; GetAll; GetByKeys; Count; AreKeysExist; IsSwampExist) are compared with the model; the client thread must return (exact deadlock detection). Fields the documentation leaves open are marked unspecified in the model and not compared (listed in assumptions). Non-trivial = transitions whose request changes the model state", len(ops), depth, len(reads))
 	r.Assumptions = []string{
 		"single client, requests one at a time; virtual clock advanced 1 s per request",
 		"unspecified (not compared): whether a swamp that an operation summoned but stored nothing in 'exists'; metadata of a record after an Increment whose condition failed; Uint32SlicePush/IsValueExist on a key holding another type; effect of Uint32SliceDelete on a key holding another type",
@@ -681,10 +691,20 @@ func TestC06(t *testing.T) {
 	}
 	first := !r.IsWorker() || r.Mine(0)
 	r.Parallel(16, "TestC06", func() {
-		for _, conf := range []string{"mem", "dsk", "imm"} {
+		for _, conf := range []string{"mem", "dsk", "imm", "mem+b"} {
 			type node struct{ hist []int }
 			seen := map[string]bool{newRefkv().canon(): true}
 			frontier := []node{{}}
+			if conf == "mem+b" {
+				// the same search started from a swamp that already holds record b: deletes of a never empty (and so
+				// never destroy) the swamp, which the plain search reaches only one step deeper
+				for oi, o := range ops {
+					if strings.HasPrefix(o.name, "Set(b,") && strings.Contains(o.name, "create=true,overwrite=true,meta=false") {
+						frontier = []node{{hist: []int{oi}}}
+						break
+					}
+				}
+			}
 			for d := 1; d <= depth; d++ {
 				last := d == depth
 				count := last || first
@@ -705,8 +725,11 @@ func TestC06(t *testing.T) {
 				results := make([]*obs, len(hists))
 				want := func(i int) bool { return (!last || r.Mine(i)) && !r.OutOfTime() }
 				bad := rigBatch(len(hists), want, func(rg *rigT, i int) {
-					swamp := fmt.Sprintf("%s/r/h%d", conf, i)
-					c06persistent = conf != "mem"
+					swamp := fmt.Sprintf("%s/r/h%d", strings.TrimSuffix(conf, "+b"), i)
+					if conf == "mem+b" {
+						swamp = fmt.Sprintf("mem/rb/h%d", i)
+					}
+					c06persistent = conf != "mem" && conf != "mem+b"
 					m := newRefkv()
 					o := &obs{}
 					results[i] = o
@@ -721,7 +744,25 @@ func TestC06(t *testing.T) {
 						}
 						o.step = ops[oi].name
 						o.real = ops[oi].run(rg, swamp)
+						had := map[string]bool{}
+						for k := range m.recs {
+							had[k] = true
+						}
+						wasReopened := m.reopened
 						o.model = ops[oi].model(m, nowNS(si+1))
+						// hidden-state bookkeeping for the search key (never compared with the server)
+						if !m.exists() || (m.reopened && !wasReopened) || strings.HasPrefix(ops[oi].name, "CloseAndReopen") {
+							m.removed = nil
+						} else {
+							for k := range had {
+								if _, still := m.recs[k]; !still {
+									if m.removed == nil {
+										m.removed = map[string]bool{}
+									}
+									m.removed[k] = true
+								}
+							}
+						}
 						o.changed = m.canon() != before
 					}
 					for _, rd := range reads {
